@@ -246,7 +246,7 @@ class History:
 
             self.scratch = tempfile.mkdtemp(prefix="verif-files-", dir="/dev/shm" if os.path.isdir("/dev/shm") else None)
             self.disk = FileDisk(self.scratch, desc["file_stores"], touch=desc.get("touch_stores", ()),
-                                 siblings=bool(desc.get("file_siblings")))
+                                 siblings=bool(desc.get("file_siblings")), symlinks=desc.get("file_symlinks", ()))
         else:
             self.disk = Disk()
         self.disk.tickv = float(desc.get("tick", 1.0))
@@ -459,7 +459,7 @@ def _run_op(hist, op, idx, *, tape=None, uberjob_kwargs=None, client_wrap=None, 
             rt.cut_point("fs-" + opname + "-" + phase, os.path.basename(path))
 
         fs_plan = fs.FaultPlan(None, buffer_size=cfg.get("buffer_size", 8192), hook=fs_hook,
-                               stamp=lambda: hist.disk.tick(sim.time()))
+                               stamp=lambda: hist.disk.tick(sim.time()), root=hist.scratch)
         rt.on_death = lambda: setattr(fs_plan, "dead", True)
         fs.install(fs_plan)
     shims.install(gran=sc.get("gran", "opcode"))
